@@ -1,17 +1,19 @@
 """C14 -- spectral placement keeps every module's disc inside the die (tools/spectral/spectral.py, spectral_algorithm.py).
 
 What is decided deductively (mathematical reals, all values):
-  * normalize: fixed entries untouched, one common non-negative factor, every movable entry that is not NEGLIGIBLE ends
-    inside its span, the limiting entry reaches it; ValueError only when every movable entry is negligible;
+  * normalize: fixed entries untouched, one common non-negative factor, EVERY movable entry ends inside its span (an entry
+    left out of the minimum has |x| <= t * span while every ratio that enters the minimum is below 1 / t: this needs the
+    threshold to be relative to the span, which it is since fix 400af20), the limiting entry reaches its span; ValueError
+    only when every movable entry is negligible;
   * orthogonalize / calculate_centroids / wirelength / abs_norm_dot_product against their definitions (fixed entries kept);
   * spectral_layout_die with its power-iteration loop CUT (vf.loopcut.one_iteration_of_nested_while): base case and
     inductive step of the invariant  "fixed entries are the shifted initial coordinates; every movable entry is within its
-    span or was negligible at the normalization that produced it", for 1-D and 2-D dies, random start values arbitrary;
+    span", for 1-D and 2-D dies, random start values arbitrary;
   * Spectral._build_graph (clique model, masses, fixed flags, centres) and Spectral.spectral_layout against the contract
     of spectral_layout_die (callee stubbed by that contract): discs inside the die, fixed modules untouched, hard modules
     moved rigidly, areas and nets unchanged.
-What is NOT decided deductively and is left to the bounded leg: that an entry negligible at its last normalization ends
-inside its span (depends on magnitudes produced by the iteration), termination below the iteration cap, rounding."""
+What is NOT decided deductively and is left to the bounded leg: that the run does not stop on degenerate arithmetic (the
+contracts allow ZeroDivisionError / ValueError in degenerate states), rounding, the scale of the die."""
 import copy
 import math
 import os
@@ -69,7 +71,8 @@ def normalize_post(S, n):
         return
     S.ensure("normalize.in_place_and_same_length", out.value is None and len(x) == n)
     S.ensure("normalize.fixed_entries_untouched", sand(*[seq(x[i], x0[i]) for i in range(n) if fixed[i]]))
-    S.ensure("normalize.movable_entries_inside_their_span_unless_negligible", sand(*[sor(sle(sabs(x[i]), span[i]), negl[i]) for i in mov]))
+    # with a threshold RELATIVE to the span an entry left out of the minimum has |x| <= t * span while the factor is below 1 / t
+    S.ensure("normalize.every_movable_entry_ends_inside_its_span", sand(*[sle(sabs(x[i]), span[i]) for i in mov]))
     S.ensure("normalize.one_common_nonnegative_factor",
              sand(*[seq(x[i] * x0[j], x[j] * x0[i]) for i in mov for j in mov if i < j], *[x[i] * x0[i] >= 0 for i in mov],
                   *[simplies(seq(x0[i], 0), seq(x[i], 0)) for i in mov]))
@@ -142,8 +145,7 @@ class Ghost:
 
     def wrap(self, S, real_normalize):
         """In symbolic runs normalize is replaced by its CONTRACT (discharged on every run by normalize_scales_into_the_spans
-        on the real function): movable entries become arbitrary values that are inside their span unless the entry was
-        negligible, fixed entries are untouched, ValueError possible only when every movable entry is negligible.  (The
+        on the real function): movable entries become arbitrary values inside their span, fixed entries are untouched, ValueError possible only when every movable entry is negligible.  (The
         common-factor clause of the contract is not needed by the callers and is not assumed.)  Concrete runs call the
         real function."""
         def normalize(x, max_span, is_fixed):
@@ -158,7 +160,7 @@ class Ghost:
                     raise symx.modelled(ValueError("min() iterable argument is empty"))
             for i in mov:
                 y = S.fresh_real("norm")
-                S.assume(sor(sabs(y) <= max_span[i], sabs(x0[i]) <= NEGL * max_span[i]))
+                S.assume(sabs(y) <= max_span[i])
                 x[i] = y
             return None
         return normalize
@@ -185,13 +187,13 @@ def die_instance(S, n, fixed, dims, init="any"):
 
 
 def inv_row(S, row, span, fixed, pre_row, size_d, initial_row):
-    """invariant of one coordinate row: fixed entries = initial - size/2; movable entries inside or negligible before"""
+    """invariant of one coordinate row: fixed entries = initial - size/2; movable entries within their span"""
     cl = []
     for i in range(len(row)):
         if fixed[i]:
             cl.append(seq(row[i], initial_row[i] - size_d / 2))
         else:
-            cl.append(sor(sle(sabs(row[i]), span[i]), sle(sabs(pre_row[i]), NEGL * span[i])))
+            cl.append(sle(sabs(row[i]), span[i]))
     return sand(*cl)
 
 
@@ -423,7 +425,6 @@ def spectral_layout_places_the_discs_inside_the_die(S, kinds, nfl):
         for i in range(n):
             if not movable[i]:
                 S.assume(sand(sn.modules[i].center.x >= 0, sn.modules[i].center.y >= 0))
-    small = {}
     calls = []
 
     def die_contract(adj, mass, size, initial, fixed):
@@ -444,9 +445,7 @@ def spectral_layout_places_the_discs_inside_the_die(S, kinds, nfl):
                     row.append(initial[d][i] - size[d] / 2)
                 else:
                     y = S.fresh_real(f"pos{d}_{i}")
-                    sm = symx.SymBool(symx.z3.Bool(f"negligible_at_last_normalization!{len(calls)}_{d}_{i}"))
-                    small[(len(calls), d, i)] = (y, sm)
-                    S.assume(sor(sabs(y) <= size[d] / 2 - radius[i], sm))
+                    S.assume(sabs(y) <= size[d] / 2 - radius[i])
                     row.append(y)
             coord.append(row)
         return coord, S.fresh_real("wl"), [0, 0]
@@ -476,7 +475,6 @@ def spectral_layout_places_the_discs_inside_the_die(S, kinds, nfl):
     if not out.ok:
         return
     S.ensure("layout.callee_called_once_per_floorplan", len(calls) == max(nfl, 1))
-    none_small = sand(*[snot(sm) for (y, sm) in small.values()]) if small else True
     for i, (m, area, c0, rs, fx, hd) in enumerate(snap):
         nm = kinds[i]
         S.ensure("layout.area_unchanged", seq(m.area(), area))
@@ -500,7 +498,7 @@ def spectral_layout_places_the_discs_inside_the_die(S, kinds, nfl):
             if m.center is None:
                 continue
             cx, cy = m.center.x, m.center.y
-        S.ensure("layout.disc_of_every_movable_module_inside_the_die", simplies(none_small, disc_inside(cx, cy, radius[i], W, H)))
+        S.ensure("layout.disc_of_every_movable_module_inside_the_die", disc_inside(cx, cy, radius[i], W, H))
     S.ensure("layout.nets_unchanged", len(sn.edges) == len(edges) and all(a is b[0] for a, b in zip(sn.edges, edges)) and
              all(list(e.modules) == ms and e.weight is wt for (e, ms, wt) in edges))
 
